@@ -465,25 +465,34 @@ def build_ds(spec):
     return apply_elements(L.build_ds(spec), spec)
 
 
+def new_stack(dcmstack, case):
+    return dcmstack.DicomStack(time_order=L.make_ordering(dcmstack, case.get('time_order')),
+                               vector_order=L.make_ordering(dcmstack, case.get('vector_order')),
+                               meta_filter=make_filter(dcmstack, case['filter']))
+
+
+def add_file(st, case, i, dss, given):
+    """one add_dcm call: file index i of the case; fills dss / given"""
+    from dcmstack.extract import default_extractor
+    spec = case['files'][i]
+    ds = build_ds(spec)
+    dss[i] = ds
+    if case['meta_mode'] == 'hand':
+        meta = meta_truth(case, spec)
+        given[spec['id']] = copy.deepcopy(meta)
+        st.add_dcm(ds, meta)
+    else:
+        given[spec['id']] = default_extractor(ds)
+        st.add_dcm(ds)
+
+
 def build_stack(dcmstack, case):
     """-> (stack, datasets by file index, given: file id -> the dictionary the stack works with (the hand-built one, or
     the library's own extraction: model INPUT, compared with gen_truth by the oracles))"""
-    from dcmstack.extract import default_extractor
-    st = dcmstack.DicomStack(time_order=L.make_ordering(dcmstack, case.get('time_order')),
-                             vector_order=L.make_ordering(dcmstack, case.get('vector_order')),
-                             meta_filter=make_filter(dcmstack, case['filter']))
+    st = new_stack(dcmstack, case)
     dss, given = {}, {}
     for i in case['add_order']:
-        spec = case['files'][i]
-        ds = build_ds(spec)
-        dss[i] = ds
-        if case['meta_mode'] == 'hand':
-            meta = meta_truth(case, spec)
-            given[spec['id']] = copy.deepcopy(meta)
-            st.add_dcm(ds, meta)
-        else:
-            given[spec['id']] = default_extractor(ds)
-            st.add_dcm(ds)
+        add_file(st, case, i, dss, given)
     return st, dss, given
 
 
@@ -526,18 +535,38 @@ def locate(case, arr, slice_dim):
     return out
 
 
-def run_conv(case):
-    """The observation of one conversion (see module docstring of coq/Conv/CorrMeta.v).  Only public API: the final
-    file order is read off the output ARRAY (every file is located by its pixel values), the per-file extension affine
-    from NiftiWrapper.from_dicom_wrapper on the same data set, the filter verdicts from the filter object itself."""
-    import warnings
-    warnings.simplefilter('ignore')
+def prepare(dcmstack, case):
+    """everything the observation needs that is NOT the stack under test: the axis permutation of the voxel reordering
+    (from a twin stack, so that the stack under test sees only add_dcm and to_nifti), the flip abstraction.  Runs BEFORE
+    the stack(s) under test are created: no DicomStack is constructed between their creation and their conversion."""
     import numpy as np
-    import dcmstack
+    twin, dss, _ = build_stack(dcmstack, case)
+    vo = case['vo']
+    perm = [0, 1, 2]
+    if vo:
+        shp = twin.get_shape()
+        _, _, _, ornt = dcmstack.reorder_voxels(np.zeros(tuple(shp[:3])), twin.get_affine().copy(), vo)
+        perm = [int(p) for p, f in ornt]
+    return {'perm': perm, 'wants_flip': L.wants_flip(dcmstack, dss[case['add_order'][0]], vo)}
+
+
+def observe(dcmstack, case, st, dss, given, prep):
+    """convert the (filled) stack and observe.  Only public API: the final file order is read off the output ARRAY (every
+    file is located by its pixel values), the per-file extension affine from NiftiWrapper.from_dicom_wrapper on the same
+    data set, the filter verdicts from the filter object itself."""
+    import numpy as np
     from dcmstack import dcmmeta
     from nibabel.nicom.dicomwrappers import wrapper_from_data
-    st, dss, given = build_stack(dcmstack, case)
+    vo = case['vo']
     ids = [case['files'][i]['id'] for i in case['add_order']]
+    try:
+        if case['via'] == 'wrapper':
+            w = st.to_nifti_wrapper(vo)
+        else:
+            w = dcmmeta.NiftiWrapper(st.to_nifti(vo, embed_meta=True))
+        exc = None
+    except Exception as e:
+        exc = e
     # the sorter's view of every file (input of Stack.Model), from the extractor / nibabel wrapper
     absf, affs = {}, {}
     for i in case['add_order']:
@@ -545,36 +574,22 @@ def run_conv(case):
         absf[spec['id']] = L.abstract_file(dcmstack, spec, dss[i], case)
         w1 = dcmmeta.NiftiWrapper.from_dicom_wrapper(wrapper_from_data(dss[i]), copy.deepcopy(given[spec['id']]))
         affs[spec['id']] = [[float(x) for x in row] for row in w1.meta_ext.affine]
-    first = dss[case['add_order'][0]]
-    vo = case['vo']
     obs = {'files': [absf[i] for i in ids], 'affs': [affs[i] for i in ids],
            'truth': [[i, plain(given[i])] for i in ids],
-           'wants_flip': L.wants_flip(dcmstack, first, vo)}
-    # the permutation of the voxel reordering, from a twin stack (so that the stack under test sees only to_nifti)
-    twin = build_stack(dcmstack, case)[0]
-    perm = [0, 1, 2]
-    if vo:
-        shp = twin.get_shape()
-        _, _, _, ornt = dcmstack.reorder_voxels(np.zeros(tuple(shp[:3])), twin.get_affine().copy(), vo)
-        perm = [int(p) for p, f in ornt]
-    obs['perm'] = perm
-    # the filter's verdict for every key any file carries (the object given to the stack; the library's default otherwise)
+           'wants_flip': prep['wants_flip'], 'perm': prep['perm']}
+    # the filter's verdict for every key any file carries (an object built like the one given to the stack; the library's
+    # default otherwise)
     filt = make_filter(dcmstack, case['filter']) or dcmstack.default_meta_filter
     allkeys = sorted(set(k for d in given.values() for k in d))
     obs['filt'] = [[k, bool(filt(k, None))] for k in allkeys]
     obs['order'] = []
-    try:
-        if case['via'] == 'wrapper':
-            w = st.to_nifti_wrapper(vo)
-        else:
-            w = dcmmeta.NiftiWrapper(st.to_nifti(vo, embed_meta=True))
-    except Exception as e:
-        nm = type(e).__name__
+    if exc is not None:
+        nm = type(exc).__name__
         # every exception of the conversion itself is an observation (the property promises a result for every
         # complete grid): classes outside the model's enum are reported as ECrash
         obs['err'] = X.ERRMAP.get(nm) or L.ERRMAP.get(nm) or 'ECrash'
         obs['exc'] = nm
-        obs['exc_msg'] = str(e)[:200]
+        obs['exc_msg'] = str(exc)[:200]
         return obs
     ext = w.meta_ext
     obs['ext'] = X.ext_to_json(ext)
@@ -602,6 +617,70 @@ def run_conv(case):
         look.append([fid, ix, vals])
     obs['look'] = look
     return obs
+
+
+def run_conv(case):
+    """The observation of one conversion (see module docstring of coq/Conv/CorrMeta.v)."""
+    import warnings
+    warnings.simplefilter('ignore')
+    import dcmstack
+    prep = prepare(dcmstack, case)
+    st = new_stack(dcmstack, case)
+    dss, given = {}, {}
+    for i in case['add_order']:
+        add_file(st, case, i, dss, given)
+    return observe(dcmstack, case, st, dss, given, prep)
+
+
+def run_side_by_side(pair):
+    """Two stacks that live SIDE BY SIDE in one interpreter: both are created before either is filled or converted, the
+    add_dcm calls are consecutive or interleaved, then they are converted in the order pair['first'] says.  No other
+    DicomStack is constructed in between.  -> {'a': observation, 'b': observation} (each as run_conv's)."""
+    import warnings
+    warnings.simplefilter('ignore')
+    import dcmstack
+    ca, cb = pair['a'], pair['b']
+    prep = {'a': prepare(dcmstack, ca), 'b': prepare(dcmstack, cb)}
+    st = {'a': new_stack(dcmstack, ca), 'b': new_stack(dcmstack, cb)}
+    dss, given = {'a': {}, 'b': {}}, {'a': {}, 'b': {}}
+    sched = [('a', i) for i in ca['add_order']] + [('b', i) for i in cb['add_order']]
+    if pair.get('interleave'):
+        qa, qb = [('a', i) for i in ca['add_order']], [('b', i) for i in cb['add_order']]
+        sched = []
+        while qa or qb:
+            if qa:
+                sched.append(qa.pop(0))
+            if qb:
+                sched.append(qb.pop(0))
+    for who, i in sched:
+        add_file(st[who], pair[who], i, dss[who], given[who])
+    out = {}
+    for who in (('a', 'b') if pair.get('first', 'a') == 'a' else ('b', 'a')):
+        out[who] = observe(dcmstack, pair[who], st[who], dss[who], given[who], prep[who])
+    return out
+
+
+def run_fresh(func, arg, timeout=110):
+    """run convmeta.<func>(arg) in a FRESH interpreter (same implementation tree): process-wide state left behind by
+    earlier cases of the batch (or by this one) cannot leak into the observation, and a replay reproduces it"""
+    import json, subprocess
+    repo = os.environ.get('DCMSTACK_REPO', '/repo')
+    verif = os.path.dirname(os.path.dirname(os.path.abspath(__file__)))
+    code = ("import sys, json\n"
+            "sys.path[:0] = [%r, %r]\n"
+            "from props import convmeta as M\n"
+            "arg = json.load(sys.stdin)\n"
+            "try:\n"
+            "    out = getattr(M, %r)(arg)\n"
+            "except Exception as e:\n"
+            "    out = {'crash': type(e).__name__, 'msg': str(e)[:300]}\n"
+            "sys.stdout.write('\\n@@RESULT@@' + json.dumps(out))\n") % (os.path.join(repo, 'src'), verif, func)
+    env = dict(os.environ, PYTHONHASHSEED='0')
+    p = subprocess.run([sys.executable, '-c', code], input=json.dumps(arg), capture_output=True, text=True, timeout=timeout,
+                       env=env, cwd=verif)
+    if '@@RESULT@@' not in p.stdout:
+        return {'crash': 'FreshInterpreter', 'msg': 'rc=%s %s' % (p.returncode, (p.stderr or p.stdout)[-300:])}
+    return json.loads(p.stdout.split('@@RESULT@@')[-1])
 
 
 # ------------------------------------------------------------------------------------------------ Coq literals
@@ -1003,14 +1082,154 @@ class LosslessPart(_Base):
         return signature('c01', case, obs, msg)
 
 
+# ------------------------------------------------------------------------------------------------ stacks side by side
+
+FILTER_PAIRS = [
+    ({'mode': 'default'}, {'mode': 'none'}),
+    ({'mode': 'none'}, {'mode': 'default'}),
+    ({'mode': 'default'}, {'mode': 'default+extra', 'xe': ['Time', 'Number', 'k'], 'xi': ['Patient', 'UID']}),
+    ({'mode': 'default+extra', 'xe': ['Echo', 'Series', 'Csa'], 'xi': []}, {'mode': 'default'}),
+    ({'mode': 'lambda', 'name': 'all'}, {'mode': 'none'}),
+    ({'mode': 'regex', 'excl': ['e'], 'incl': []}, {'mode': 'regex', 'excl': ['e'], 'incl': ['Time', 'Name']}),
+    ({'mode': 'regex', 'excl': ['^[A-Z]'], 'incl': None}, {'mode': 'regex', 'excl': ['^[a-z]', 'Csa'], 'incl': None}),
+    ({'mode': 'lambda', 'name': 'has_e'}, {'mode': 'lambda', 'name': 'long'}),
+]
+
+
+def gen_pair(rng, tier):
+    """two conversions whose stacks coexist: the same series twice or two different series, with filters that disagree
+    on keys both carry"""
+    while True:
+        a = gen_case(rng, tier, shape_class=rng.choice([None, None, '3d', '5d', 'vec_t1']))
+        if len(a['files']) <= 12:
+            break
+    if rng.random() < 0.6:
+        b = copy.deepcopy(a)
+        b['vo'] = rng.choice(ALL_ORDERS)
+        b['via'] = rng.choice(['wrapper', 'nifti'])
+        b['add_order'] = L.add_order(rng, b['files'])
+        same = True
+    else:
+        while True:
+            b = gen_case(rng, tier, shape_class=rng.choice([None, '3d', 's1']))
+            if len(b['files']) <= 12:
+                break
+        same = False
+    if rng.random() < 0.8:
+        fa, fb = rng.choice(FILTER_PAIRS)
+        a['filter'], b['filter'] = copy.deepcopy(fa), copy.deepcopy(fb)
+    else:
+        words = sorted(set(k for c in (a, b) for f in c['files'] for k in list(f['tags']) + list(f.get('extra', {}))))
+        a['filter'], b['filter'] = gen_filter(rng, words), gen_filter(rng, words)
+    return {'kind': 'side-by-side/%s/%s-vs-%s' % ('same-series' if same else 'two-series', a['filter']['mode'], b['filter']['mode']),
+            'a': a, 'b': b, 'first': rng.choice(['a', 'b']), 'interleave': rng.random() < 0.5}
+
+
+def gen_pairs(rng, tier):
+    n = 24 if tier == 'quick' else 200
+    out = []
+    for _ in range(n):
+        p = gen_pair(rng, tier)
+        out.append(p)
+        if len(out) % 3 == 0:                     # the same two stacks, fresh, converted in the other order
+            q = copy.deepcopy(p)
+            q['first'] = 'b' if p['first'] == 'a' else 'a'
+            out.append(q)
+    return out
+
+
+def shrink_pair(pair):
+    if pair.get('interleave'):
+        c = copy.deepcopy(pair); c['interleave'] = False; yield c
+    for who in ('a', 'b'):
+        for sub in shrink(pair[who]):
+            if sub['filter'] != pair[who]['filter']:
+                continue                          # the two filters are the point of the case
+            c = copy.deepcopy(pair); c[who] = sub; yield c
+
+
+class SideBySidePart:
+    """C14: "the key set equals the extracted keys minus those for which the filter returns true" for THIS stack's filter,
+    when another stack with another filter lives in the same interpreter."""
+    NAME = "sidebyside"
+    CORR_REQUIRE = _Base.CORR_REQUIRE
+    CORR_CASE_TYPE = "(CorrMeta.case * CorrMeta.case)"
+    CORR_CHECK = "(fun p : CorrMeta.case * CorrMeta.case => andb (CorrMeta.check (fst p)) (CorrMeta.check (snd p)))"
+    CORR_SHOW = "(fun p : CorrMeta.case * CorrMeta.case => (CorrMeta.show (fst p), CorrMeta.show (snd p)))"
+    SHARD = 6
+    IMPL_TIMEOUT = 150
+    RULE = ("two DicomStack objects created BEFORE either is filled or converted (no other stack is constructed in between), "
+            "the same series twice or two different series, filters that disagree on keys both carry (default / keep-all / "
+            "remove-all / default + extra -e -i / regex lists / lambdas), add_dcm calls consecutive or interleaved, converted "
+            "A-then-B or B-then-A (also the same pair in both orders, each in a fresh pair of stacks); every case runs in a "
+            "FRESH interpreter; each result is judged by its OWN filter with the key-set oracle; non-trivial = the two filters "
+            "disagree on a key both series carry")
+
+    @staticmethod
+    def gen_cases(rng, tier):
+        return gen_pairs(rng, tier)
+
+    @staticmethod
+    def run_impl(case):
+        return run_fresh('run_side_by_side', case, timeout=SideBySidePart.IMPL_TIMEOUT - 20)
+
+    @staticmethod
+    def coq_case(case, obs):
+        oa = obs.get('a') if isinstance(obs, dict) else None
+        ob = obs.get('b') if isinstance(obs, dict) else None
+        return '(%s, %s)' % (coq_case(case['a'], oa), coq_case(case['b'], ob))
+
+    @staticmethod
+    def oracle(case, obs):
+        m = None
+        if not isinstance(obs, dict) or 'crash' in obs or 'a' not in obs or 'b' not in obs:
+            return crash_message(obs if isinstance(obs, dict) and 'crash' in obs else {'crash': 'NoObservation', 'msg': repr(obs)[:200]})
+        msgs = []
+        for who in ('a', 'b'):
+            m = oracle_keys(case[who], obs[who])
+            if m:
+                head, _, rest = m.partition(':')
+                msgs.append("%s: stack %s (converted %s, other stack's filter %s) %s" % (
+                    head, who.upper(), 'first' if case.get('first', 'a') == who else 'second',
+                    case['b' if who == 'a' else 'a']['filter']['mode'], rest.strip()))
+        return msgs[0] if msgs else None
+
+    @staticmethod
+    def signature(case, obs, msg):
+        return signature('c14conv-sbs', case, obs, msg)
+
+    @staticmethod
+    def nontrivial(case, obs):
+        if not isinstance(obs, dict) or 'a' not in obs or 'b' not in obs or 'filt' not in obs['a'] or 'filt' not in obs['b']:
+            return False
+        fa, fb = dict(obs['a']['filt']), dict(obs['b']['filt'])
+        return any(fa[k] != fb[k] for k in fa if k in fb)
+
+    @staticmethod
+    def shrink(case):
+        return shrink_pair(case)
+
+
+def is_pair(case):
+    return isinstance(case, dict) and 'a' in case and 'b' in case
+
+
 class KeySetPart(_Base):
-    """C14, conversion level: same conversions, oracle = key-set equation + default-filter privacy statement."""
+    """C14, conversion level: the conversions of C01's stream (single stacks) plus pairs of stacks that live side by side
+    with different filters (SideBySidePart); oracle = key-set equation + default-filter privacy statement, each result
+    judged by its OWN stack's filter.  A Coq case is the list of the conversions of the case (one or two)."""
     NAME = "keyset"
-    RULE = ("the conversions of C01's stream WITHOUT the region of C01's open finding N9 (C14's assumptions exclude it): every "
+    CORR_CASE_TYPE = "list CorrMeta.case"
+    CORR_CHECK = "(forallb CorrMeta.check)"
+    CORR_SHOW = "(map CorrMeta.show)"
+    SHARD = 12
+    IMPL_TIMEOUT = 150
+    RULE = ("(1) the conversions of C01's stream WITHOUT the region of C01's open finding N9 (C14's assumptions exclude it): every "
             "classification reachable through conversion, shapes incl. (x,y,z,1,n); key names incl. private-style, "
             "translator-prefixed (hand-built and real CSA headers), non-ASCII and random strings; filters: default, default + "
             "extra exclude/include literals, keep-all, key lambdas, make_key_regex_filter with generated regexes and include "
-            "list None / EMPTY / non-empty; non-trivial = a varying key exists in a 4-D/5-D result")
+            "list None / EMPTY / non-empty; (2) " + SideBySidePart.RULE + "; non-trivial = a varying key exists in a 4-D/5-D "
+            "result (1) / the two filters disagree on a common key (2)")
 
     @staticmethod
     def gen_cases(rng, tier):
@@ -1020,12 +1239,32 @@ class KeySetPart(_Base):
             if rng.random() < 0.35:
                 c['filter'] = rng.choice([{'mode': 'default'}, {'mode': 'default+extra', 'xe': ['Csa', 'k'], 'xi': ['kx']},
                                           {'mode': 'regex', 'excl': ['Patient', 'e'], 'incl': []}])
-        return cases
+        return cases + gen_pairs(rng, tier)
+
+    @staticmethod
+    def run_impl(case):
+        return SideBySidePart.run_impl(case) if is_pair(case) else run_conv(case)
+
+    @staticmethod
+    def coq_case(case, obs):
+        if is_pair(case):
+            oa = obs.get('a') if isinstance(obs, dict) else None
+            ob = obs.get('b') if isinstance(obs, dict) else None
+            return '[%s; %s]' % (coq_case(case['a'], oa), coq_case(case['b'], ob))
+        return '[%s]' % coq_case(case, obs)
 
     @staticmethod
     def oracle(case, obs):
-        return oracle_keys(case, obs)
+        return SideBySidePart.oracle(case, obs) if is_pair(case) else oracle_keys(case, obs)
 
     @staticmethod
     def signature(case, obs, msg):
-        return signature('c14conv', case, obs, msg)
+        return SideBySidePart.signature(case, obs, msg) if is_pair(case) else signature('c14conv', case, obs, msg)
+
+    @staticmethod
+    def nontrivial(case, obs):
+        return SideBySidePart.nontrivial(case, obs) if is_pair(case) else _Base.nontrivial(case, obs)
+
+    @staticmethod
+    def shrink(case):
+        return shrink_pair(case) if is_pair(case) else shrink(case)
